@@ -55,9 +55,81 @@ func scnRenewRecipes(ctx *check.JobCtx) {
 		replica = int32(len(l.SP)) // make sure the provider without funds holds a shard ...
 		size = 1_000_000           // ... whose first collateral it can still afford
 	}
+	if mode == "term-reassign" || mode == "fp-reassign" {
+		// an unrelated stored order keeps other customers' money in the escrows
+		other := w.NewDataId()
+		_, o0 := w.Store(world.StoreReq{Owner: l.Owners[1].Id, Gateway: g, DataId: other, CommitId: other, Duration: 3700, Replica: 1, Timeout: 500, Size: 2_000_000})
+		w.CompleteAll(o0)
+		// replica 2: one provider stores, the other stays silent and is replaced at the first timeout;
+		// the owner terminates / force-replaces while the replacement is still pending
+		_, oid := w.Store(world.StoreReq{Owner: o.Id, Gateway: g, DataId: did, CommitId: did, Duration: d1, Replica: 2, Timeout: 40, Size: size})
+		if od, ok := w.Cur.Orders[oid]; ok && len(od.Shards) > 0 {
+			sh := w.Cur.Shards[od.Shards[0]]
+			if pr := w.ProviderByAddr(sh.Sp); pr != nil {
+				w.Complete(pr.Acct, nil, oid, sh.Size_)
+			}
+		}
+		w.EndBlock()
+		w.Advance(int64(41 + r.Intn(30)))
+		if mode == "term-reassign" {
+			w.Terminate(o.Id, nil, g.Acct, "", did, nil)
+		} else {
+			md := w.Cur.Metas[did]
+			_, fp := w.Store(world.StoreReq{Owner: o.Id, Gateway: g, DataId: did, CommitId: md.Commit + "|" + (did[:30] + "-fp1xxxxxxxxxx")[:36], Duration: 3600, Replica: 1, Timeout: 300, Size: size, Operation: 2, Alias: md.Alias})
+			if fp != 0 {
+				w.CompleteAll(fp)
+			}
+		}
+		w.EndBlock()
+		w.Case("recipe:%s", mode)
+		for round := 0; round < 12 && !w.Halted(); round++ {
+			next := l.nextScheduled()
+			if next == 0 || int64(next) > w.C.Height+40000 {
+				break
+			}
+			w.AdvanceTo(int64(next) + 1)
+		}
+		for _, sp := range l.SP {
+			w.Claim(sp.Acct)
+		}
+		w.EndBlock()
+		w.Sample("recipe %s: %s", mode, traceSummary(w))
+		w.Finish()
+		return
+	}
+	if mode == "multiversion-migrate" {
+		// three committed versions of one model on (almost) all providers, then every provider migrates it away
+		replica = int32(len(l.SP) - 1)
+		size = 1000
+	}
 	_, oid := w.Store(world.StoreReq{Owner: o.Id, Gateway: g, DataId: did, CommitId: did, Duration: d1, Replica: replica, Timeout: 500, Size: size})
 	w.CompleteAll(oid)
 	w.EndBlock()
+	if mode == "multiversion-migrate" {
+		for v := 1; v <= 2; v++ {
+			md := w.Cur.Metas[did]
+			_, uo := w.Store(world.StoreReq{Owner: o.Id, Gateway: g, DataId: did, CommitId: md.Commit + "|" + (fmt.Sprintf("%s-mv%d", did[:28], v) + "xxxxxxxxxxxx")[:36], Duration: d1, Replica: replica, Timeout: 500, Size: size, Alias: md.Alias})
+			if uo != 0 {
+				w.CompleteAll(uo)
+			}
+			w.EndBlock()
+		}
+		for _, sp := range l.SP {
+			w.Migrate(sp.Acct, did)
+			w.EndBlock()
+		}
+		if md, ok := w.Cur.Metas[did]; ok {
+			for _, id := range md.Orders {
+				w.CompleteAll(id)
+			}
+		}
+		w.EndBlock()
+		w.Case("recipe:%s", mode)
+		w.Advance(20)
+		w.Sample("recipe %s: %s", mode, traceSummary(w))
+		w.Finish()
+		return
+	}
 	w.Advance(int64(10 + r.Intn(500)))
 	renew := func(d uint64) { w.Renew(o.Id, nil, g.Acct, "", d, 300, nil, did) }
 	switch mode {
